@@ -17,13 +17,16 @@ import (
 type propFn func(e *env)
 
 type env struct {
-	seed  uint64
-	tier  string
-	quick bool
-	scale int // 1 for quick, larger for thorough
-	mu    sync.Mutex
-	w     *bufio.Writer
-	args  []string
+	prog    *os.File // optional progress log (VERIF_PROGRESS): which cases are in flight, for crash attribution
+	progMu  sync.Mutex
+	progSeq int
+	seed    uint64
+	tier    string
+	quick   bool
+	scale   int // 1 for quick, larger for thorough
+	mu      sync.Mutex
+	w       *bufio.Writer
+	args    []string
 }
 
 func (e *env) emit(fields ...string) {
@@ -36,6 +39,26 @@ func (e *env) emit(fields ...string) {
 	}
 	e.w.WriteByte('\n')
 	e.mu.Unlock()
+}
+
+// begin records that the case described by desc is about to run against the implementation and
+// returns the function to call when it has finished. If the implementation crashes the process
+// (a panic in a library goroutine cannot be recovered by the harness) the driver reads the progress
+// log and reports the cases that were in flight as the failing input.
+func (e *env) begin(desc string) func() {
+	if e.prog == nil {
+		return func() {}
+	}
+	e.progMu.Lock()
+	e.progSeq++
+	n := e.progSeq
+	fmt.Fprintf(e.prog, "B\t%d\t%s\n", n, desc)
+	e.progMu.Unlock()
+	return func() {
+		e.progMu.Lock()
+		fmt.Fprintf(e.prog, "E\t%d\n", n)
+		e.progMu.Unlock()
+	}
 }
 
 var props = map[string]propFn{}
@@ -73,6 +96,12 @@ func main() {
 	e := &env{seed: *seed, tier: *tier, quick: *tier != "thorough", scale: 1, w: bufio.NewWriterSize(w, 1<<20), args: flag.Args()[1:]}
 	if !e.quick {
 		e.scale = 20
+	}
+	if pp := os.Getenv("VERIF_PROGRESS"); pp != "" {
+		if f, err := os.OpenFile(pp, os.O_CREATE|os.O_WRONLY|os.O_APPEND, 0o644); err == nil {
+			e.prog = f
+			defer f.Close()
+		}
 	}
 	f(e)
 	e.w.Flush()
